@@ -31,7 +31,7 @@ def pair_consts(**kw):
 
 def peer_consts(**kw):
     c = pair_consts(DataA=0, DropBudget=0, RtoBudget=0, MSS=2)
-    c.update({"L": 3, "PeerData": 3, "Steps": 6, "SendB": 1})
+    c.update({"L": 3, "PeerData": 3, "Steps": 6, "SendB": 1, "Connector": False})
     c.update(kw)
     return c
 
@@ -93,6 +93,25 @@ def peer_mc_replay(vd, tier, tag):
         tf = os.path.join(OUT, "traces", "tcp.peer.%s.%d.ndjson" % (tag, k))
         run_harness(exe, ["tcp-peer-replay", "--sched", pf, "--out", tf, "--rx", c["CapB"], "--tx", c["TxCap"]])
         files.append(tf)
+    # the same with the socket as connector (SYN-SENT and simultaneous open stimuli)
+    cc = peer_consts(Steps=4 if tier == "quick" else 5, Connector=True)
+    cfg2 = write_cfg("MCTcpPeerConn_" + tag, cfg_text(cc, PEER_INV, properties=["EdgeSafe"], view="View", edge="Edge", spec="PSpec"))
+    ef2 = os.path.join(OUT, "sched", "tcp.peerconn.%s.edges" % tag)
+    r2 = tlc("MCTcpPeer", cfg2, workers=12, tagged_file=ef2, tag="tcp.peerconn." + tag, timeout=3000)
+    if r2.violated:
+        raise ToolError("MCTcpPeer connector (code as fixed) violates %s (log %s)" % (r2.violated, r2.log))
+    vd.add_model("MCTcpPeer connector Steps=%d" % cc["Steps"], r2, "connecting socket vs hostile peer: SYN-SENT stimuli with ACK numbers ISS, ISS+1, ISS+2")
+    sch2, st2 = tour.build_tour(tour.load_edges(ef2), share_prefix=False)
+    for k in range(2):
+        part = sch2[k::2]
+        pf = os.path.join(OUT, "sched", "tcp.peerconn.%s.%d.sched" % (tag, k))
+        with open(pf, "w") as f:
+            for s_ in part:
+                f.write(json.dumps({"steps": s_, "peer_fin": cc["PeerData"]}, separators=(",", ":")) + "\n")
+        tf = os.path.join(OUT, "traces", "tcp.peerconn.%s.%d.ndjson" % (tag, k))
+        run_harness(exe, ["tcp-peer-replay", "--sched", pf, "--out", tf, "--rx", cc["CapB"], "--tx", cc["TxCap"], "--connector"])
+        files.append(tf)
+    log("[%s] MCTcpPeer connector: %d states, %d distinct state/stimulus pairs -> %d schedules" % (tag, r2.distinct, st2["distinct_edges"], st2["schedules"]))
     # drift of the real socket against the reference model's predicted state (not a verdict)
     drift = tot = 0
     for e in read_ndjson(files[0]):
